@@ -221,6 +221,7 @@ def call_package(self, fi, pos, kw, self_term, self_cls, node, fr, star=None, ds
     ret, live = self._run_frame(f2)
     if ev is not None:
         ev.data['ret'] = ret
+        ev.data['inlined'] = True
     # exception propagation: the caller continues only on the paths on which the callee returns
     okc = T.mk_or([c for c, _ in f2.returns] + [live])
     if okc.key != TRUE.key:
